@@ -81,13 +81,13 @@ func (RaceScenario) GenCase(r *rand.Rand, prop string) interface{} {
 	ids := []string{"1", "2", "3"}
 	for i, n := 0, 3+r.IntN(10); i < n; i++ {
 		id := pick(r, ids...)
-		c.Reqs = append(c.Reqs, pick(r, "get.test.model."+id, "call.test.model."+id+".set", "call.test.model."+id+".query", "access.test.model."+id, "get.test.shared."+id, "call.test.shared."+id+".set", "get.test.par."+id, "call.test.par."+id+".set", "call.test.par."+id+".query", "call.test.par."+id+".bad", "get.test.item."+id, "get.test.items"))
+		c.Reqs = append(c.Reqs, pick(r, "get.test.model."+id, "call.test.model."+id+".set", "call.test.model."+id+".query", "access.test.model."+id, "get.test.shared."+id, "call.test.shared."+id+".set", "get.test.par."+id, "call.test.par."+id+".set", "call.test.par."+id+".query", "call.test.par."+id+".bad", "get.test.item."+id, "get.test.items", "get.test.tag."+id, "call.test.tag."+id+".set"))
 	}
 	for pi, np := 0, 1+r.IntN(2); pi < np; pi++ {
 		var sc []string
 		for i, n := 0, 1+r.IntN(6); i < n; i++ {
 			id := pick(r, ids...)
-			sc = append(sc, pick(r, "with:"+id, "with:"+id, "withgroup:test.model."+id, "withgroup:shared", "withres:"+id, "emit:"+id, "emit:"+id, "reset", "resetall", "token", "tokenreset", "withq:"+id))
+			sc = append(sc, pick(r, "with:"+id, "with:"+id, "withgroup:test.model."+id, "withgroup:shared", "withres:"+id, "emit:"+id, "emit:"+id, "reset", "resetall", "token", "tokenreset", "withq:"+id, "withtag:"+id, "withtag:"+id))
 		}
 		c.Prods = append(c.Prods, sc)
 	}
@@ -275,6 +275,11 @@ func (RaceScenario) Execute(sim *sched.Sim, ci interface{}, prop string, race bo
 			panic("listener: empty event")
 		}
 	})
+	// a group built from a path parameter (slots 9..12)
+	svc.Handle("tag.$id", res.Group("tg.${id}"),
+		res.GetModel(func(r res.ModelRequest) { handler(9+idIndex(r.PathParam("id")), true)(r); r.Model(map[string]int{"t": 1}) }),
+		res.Call("set", func(r res.CallRequest) { handler(9+idIndex(r.PathParam("id")), true)(r); r.OK(nil) }),
+	)
 	// one shared group
 	svc.Handle("shared.$id", res.Group("shared"),
 		res.GetCollection(func(r res.CollectionRequest) { handler(8, true)(r); r.Collection([]int{1}) }),
@@ -486,6 +491,12 @@ func (rr *raceRun) producer(script []string) {
 				sim.Yield("handler", "with")
 				touch(&rr.scratch[slot])
 				r.ChangeEvent(map[string]interface{}{"w": 1})
+			})
+		case "withtag":
+			svc.With("test.tag."+arg, func(r res.Resource) {
+				touch(&rr.scratch[9+slot])
+				sim.Yield("handler", "withtag")
+				touch(&rr.scratch[9+slot])
 			})
 		case "withq":
 			svc.With("test.model."+arg, func(r res.Resource) {
